@@ -56,6 +56,7 @@ def rules(chk, db, scope=in_scope, prefix=''):
 
 
 def run(chk, db):
+    facts.gate(chk, db, ['nop/base/', 'nop/utility/', 'nop/rpc/', 'nop/protocol.h'])
     nfn, nsites = rules(chk, db)
     chk.explanation = (
         'Abstract interpretation (status local -> Untested/Ok/Failed) of %d function instances under include/nop; every '
@@ -68,3 +69,8 @@ def run(chk, db):
     # vacuity floor: the reference tree has ~200 status-producing sites
     for r in ('SD1', 'SD2', 'SD3', 'SD4'):
         chk.counts[r] = 150
+    sc = report.selftest(chk, rules, 'c10.cpp', {'SD1': 1, 'SD2': 2, 'SD3': 1, 'SD4': 3})
+    # the fixture's accepted-idiom function must stay silent (guards against a rule that fires on everything)
+    noisy = [ob for ob in sc.obs if ob[2] == 'violated' and 'Fine' in (ob[4] if len(ob) > 4 else '')]
+    if noisy:
+        chk.broken.append(('SD', 'fixtures/c10.cpp', 'self-test: accepted idioms reported: %s' % noisy[0][3][:120]))
